@@ -40,10 +40,12 @@ def timers_of(nv, repmax):
     return t
 
 
-def model(nv, repmax, maxinc, delete, mismatch, dev=(), emit=True):
+def model(nv, repmax, maxinc, delete, mismatch, dev=(), emit=True, rerun=False):
+    """repmax: one number (every incarnation) or the list of the incarnations' rep_max"""
     d = {k: (k in dev) for k in DEVS}
-    defs = {"Dev": tlc.tla(d), "TimerAt": "{" + ", ".join(tlc.tla(x) for x in timers_of(nv, repmax)) + "}"}
-    cfg = tlc.cfg_text(constants={"NV": str(nv), "RepMax": str(repmax), "SavePeriod": str(PERIOD), "MaxInc": str(maxinc),
+    rms = list(repmax) if isinstance(repmax, (list, tuple)) else [repmax] * maxinc
+    defs = {"Dev": tlc.tla(d), "TimerAt": "{" + ", ".join(tlc.tla(x) for x in timers_of(nv, max(rms))) + "}", "RepMaxSeq": tlc.tla(rms)}
+    cfg = tlc.cfg_text(constants={"NV": str(nv), "SavePeriod": str(PERIOD), "MaxInc": str(maxinc), "AllowRerun": tlc.tla(bool(rerun)),
                                   "DeletePartials": tlc.tla(bool(delete)), "AllowMismatch": tlc.tla(bool(mismatch))},
                        defs=defs, invariants=INVS, action_constraints=["Emit"] if emit else [])
     return cfg, defs
@@ -125,7 +127,7 @@ def make_runner(case, inc, pid, wd, ext, fault, seen, clock, rel=False):
     class Runner(SimulationRunner):
         def __init__(self):
             super().__init__(read_command_line_args=False)
-            self.rep_max = f_real(case["repmax"])
+            self.rep_max = f_real(case["rms"][inc - 1])
             self.update_progress_function_style = None
             if nv == 1 and case.get("nounpack"):
                 self.params.add("p", 1)                      # a simulation WITHOUT unpacked parameters (one combination)
@@ -164,7 +166,7 @@ def make_runner(case, inc, pid, wd, ext, fault, seen, clock, rel=False):
         def _run_simulation(self, current_params):
             v = current_params["p"]
             self._hit("body", v, self.known.get(v, 0))
-            if [v, self.known.get(v, 0) + 1] in [[tv, f_real(tr)] for tv, tr in timers_of(nv, case["repmax"])]:
+            if [v, self.known.get(v, 0) + 1] in [[tv, f_real(tr)] for tv, tr in timers_of(nv, max(case["rms"]))]:
                 self.ctl["clock"][0] += 0.0 if os.environ.get("VERIF_C07_NOTIMER") else 301.0          # "more than five minutes" since the last save
             token = self.ctl["token"]
             r = SimulationResults()
@@ -208,6 +210,8 @@ def fault_of(h, case):
     """crash record of the model -> where to inject it in the real run"""
     ph, v, rep = h["crash"], h["v"], f_real(h["rep"])
     nv = case["nv"]
+    if ph == "rerun":
+        return None                      # no crash: the completed simulation is simply started again
     if ph == "load":
         return {"kind": "start", "v": v}
     if ph == "first":
@@ -260,6 +264,7 @@ def run_case(job):
             if reuse and runner is not None:
                 runner.ctl = {"token": 1000 ** (inc - 1), "fault": fault, "seen": seen, "clock": clock}
                 runner.known = {}
+                runner.rep_max = f_real(case["rms"][inc - 1])
                 if pids[inc - 1] != pids[inc - 2]:
                     runner.params["noise"] = 4e-9          # item syntax on the live parameters object
             else:
@@ -314,7 +319,10 @@ def run_case(job):
                     os.replace = real_replace
                 runmod.time = real_time
             if not last:
-                if not crashed and not (fault["kind"] == "remove" and not case["delete"]):
+                if fault is None:
+                    if crashed:
+                        return f"incarnation {inc}: crashed although it was to complete", None
+                elif not crashed and not (fault["kind"] == "remove" and not case["delete"]):
                     return f"incarnation {inc}: the crash point {fault} was never reached", None
                 # what this incarnation loaded must be what the model says was durably saved
                 for v, r0 in seen.items():
@@ -332,12 +340,14 @@ def run_case(job):
                 if r0 != (exp if exp else 1):
                     return f"incarnation {inc} resumed variation {v} from {r0} repetitions, the file held {exp}", None
             # the completed simulation
-            R = f_real(case["repmax"])
-            if list(runner.runned_reps) != [R] * nv:
-                return f"runned_reps {list(runner.runned_reps)} != {[R] * nv}", None
             ends = {h["v"]: h["cnt"] for h in case["hist"] if "cnt" in h and h["inc"] == incs}
+            # (a combination that already held more than this run's rep_max keeps what it has)
+            wantR = [f_real(sum(ends[v])) for v in range(1, nv + 1)]
+            if list(runner.runned_reps) != wantR:
+                return f"runned_reps {list(runner.runned_reps)} != {wantR} (rep_max of the incarnations: {[f_real(x) for x in case['rms']]})", None
             for v in range(1, nv + 1):
                 cnt = ends[v]
+                R = wantR[v - 1]
                 cum, prev, want = 0, 0, 0
                 parts = []
                 for j, c in enumerate(cnt):
@@ -393,17 +403,22 @@ def run(ctx):
     cfgs = [(2, 2, 2, True, True, None), (2, 3, 2, False, True, None), (2, 4, 2, True, True, None), (1, 7, 2, True, True, None),
             (2, 4, 3, True, False, 250 if not thorough else 3000), (2, 7, 2, False, True, None if thorough else 120),
             (11, 2, 2, True, False, 60 if not thorough else 600),      # two-digit variation indexes in the partial file names
-            (3, 1, 2, True, True, None), (2, 1, 3, True, False, None)]  # rep_max 1 (the default): only the first-repetition path runs
+            (3, 1, 2, True, True, None), (2, 1, 3, True, False, None),  # rep_max 1 (the default): only the first-repetition path runs
+            # the user asks for fewer, then again for more repetitions (rep_max is not a parameter): completed runs started again
+            # on kept partial results, and crashes in between
+            (2, [4, 2, 4], 3, False, False, 400 if not thorough else 4000, True), (1, [2, 4, 3], 3, False, False, None, True)]
     if thorough:
         cfgs += [(3, 4, 2, True, True, None), (2, 7, 3, True, False, 3000), (2, 10, 2, True, True, None)]
     with ThreadPoolExecutor(4) as ex:
-        futs = [ex.submit(lambda c=c: tlc.run(MODULE, model(*c[:5])[0], defs=model(*c[:5])[1], coverage=True, timeout=3000, heap="3g")) for c in cfgs]
+        futs = [ex.submit(lambda c=c: tlc.run(MODULE, model(*c[:5], rerun=(len(c) > 6 and c[6]))[0], defs=model(*c[:5], rerun=(len(c) > 6 and c[6]))[1],
+                                              coverage=True, timeout=3000, heap="3g")) for c in cfgs]
         devf = ex.submit(model_devs, ctx)
         runs = [f.result() for f in futs]
         devf.result()
     rng = random.Random(ctx.seed)
     for c, r in zip(cfgs, runs):
-        label = f"nv{c[0]}-rep{c[1]}({f_real(c[1])})-inc{c[2]}"
+        label = (f"nv{c[0]}-rep{c[1]}({f_real(c[1])})-inc{c[2]}" if not isinstance(c[1], list)
+                 else f"nv{c[0]}-reps{'-'.join(str(f_real(x)) for x in c[1])}-inc{c[2]}")
         ctx.account(r, MODULE, label)
         cases = r.emitted
         if c[5] and len(cases) > c[5]:
@@ -415,7 +430,7 @@ def run(ctx):
                 cs["nounpack"] = True
             if i % 5 == 3:
                 cs["progress_file"] = True
-        jobs = [(cs, (".pickle", ".json", "")[i % 3], (i // 3) % 2 == 1 and not timers_of(c[0], c[1]), (i // 2) % 2 == 1, (i // 5) % 2 == 1)
+        jobs = [(cs, (".pickle", ".json", "")[i % 3], (i // 3) % 2 == 1 and not timers_of(c[0], max(c[1]) if isinstance(c[1], list) else c[1]), (i // 2) % 2 == 1, (i // 5) % 2 == 1)
                 for i, cs in enumerate(cases)]
         res = pool_map(run_case, jobs, chunksize=max(1, len(jobs) // 64))
         for (cs, ext, reuse, rel, rename), (d, fid) in zip(jobs, res):
